@@ -30,8 +30,86 @@ ASSUMPTIONS = [
 SKIP_KEYS = ('__versions', '__task_execution', '__execution', 'openstack')
 
 
+def gen_diamonds(rng):
+    """Fork / join shapes in which a variable is (re-)published on some of
+    the parallel branches and merely inherited on the others - once or in
+    two levels (a join whose result is re-published and joined again with a
+    branch that forked off before the first join)."""
+    lang = rng.choice(['yaql', 'yaql', 'jinja'])
+    nvars = rng.choice([1, 1, 2])
+    dict_vars = set(v for v in range(nvars) if rng.random() < 0.5)
+    counter = [0]
+
+    def val(v):
+        counter[0] += 1
+        k = counter[0]
+        if v in dict_vars:
+            return ['dict', {'a': ['const', 'A%d' % k],
+                             'b': ['dict', {'c': ['const', k]}]}]
+        return ['const', 'S%d' % k]
+
+    def pubs(p):
+        d = {}
+        for v in range(nvars):
+            if rng.random() < p:
+                d['v%d' % v] = val(v)
+        return d
+
+    def kind():
+        return rng.choice(['sync', 'sync', 'async'])
+
+    tasks = []
+    t0 = {'name': 't0', 'body': {'kind': kind()}, 'publish': pubs(0.8)}
+    nb = rng.choice([2, 2, 3])
+    branches = []
+    for b in range(nb):
+        t = {'name': 'b%d' % b, 'body': {'kind': kind()},
+             'on_success': [{'to': 'j1'}]}
+        p = pubs(0.5 if b == 0 else 0.25)
+        if p:
+            t['publish'] = p
+        branches.append(t)
+    t0['on_success'] = [{'to': t['name']} for t in branches]
+    j1 = {'name': 'j1', 'body': {'kind': kind()}, 'join': 'all'}
+    tasks = [t0] + branches + [j1]
+    if rng.random() < 0.5:
+        # second level: a side branch that forked off t0 (it only inherits
+        # what t0 published) meets the re-published result of j1
+        side = {'name': 's0', 'body': {'kind': kind()},
+                'on_success': [{'to': 'j2'}]}
+        t0['on_success'].append({'to': 's0'})
+        p1 = {'name': 'p1', 'body': {'kind': kind()},
+              'publish': pubs(0.9), 'on_success': [{'to': 'j2'}]}
+        j1['on_success'] = [{'to': 'p1'}]
+        j2 = {'name': 'j2', 'body': {'kind': kind()}, 'join': 'all'}
+        tasks += [side, p1, j2]
+    if not any(t.get('publish') for t in tasks):
+        t0['publish'] = {'v0': val(0)}
+    wf = {'name': 'main', 'short': 'main', 'type': 'direct', 'lang': lang,
+          'tasks': tasks, 'input': [{'x': 1}], 'path_input': False}
+    if rng.random() < 0.5:
+        wf['output'] = dict(('o%d' % v, ['var', 'v%d' % v])
+                            for v in range(nvars))
+    return {'workflows': [wf], 'workbook': None}
+
+
 def make_case(seed, tier):
     rng = random.Random(seed)
+    if rng.random() < 0.2:
+        from mistralsim import gen
+        prog = gen_diamonds(rng)
+        case = runner.default_case()
+        case['seed'] = seed
+        case['prog'] = prog
+        case['feats'] = ['diamond']
+        case['defs'] = gen.render_program(prog)
+        case['starts'] = [{'wf': 'main', 'input': {'x': 1}, 'params': {}}]
+        case['outcome_seed'] = seed
+        case['p_err'] = 0.0
+        case['outcome_special'] = False
+        progcase.swarm_config(rng, case)
+        case['latency'] = rng.choice([0, 0, 1.0, 4.0])
+        return case
     case, rng = progcase.program_case(
         seed, FEATS, max_tasks=rng.choice([4, 5, 6, 7]),
         p=rng.choice([0.4, 0.6]), rng=rng, force=FORCE,
